@@ -494,6 +494,7 @@ func parentMain(prop, tier string) int {
 }
 
 func firstLine(s string) string {
+	s = strings.TrimLeft(s, "\n\t ")
 	if i := strings.IndexByte(s, '\n'); i >= 0 {
 		s = s[:i]
 	}
